@@ -20,5 +20,10 @@ for s in $sel; do
     n=$(echo "$out" | grep -c '^VIOLATION')
     conf=$(echo "$out" | grep '^VIOLATION' | grep -vc 'no-failing-input-found')
     echo "$name $prop exit=$code violations=$n replay-confirmed=$conf :: ${viol:--}"
+    if [ -n "$SHOW_DETAIL" ]; then
+      echo "$out" | grep '^VIOLATION' | sed -E 's/.*replay=([^ ]+).*/\1/' | while read f; do python3 -c "
+import json,sys
+d=json.load(open(sys.argv[1])); print('     ', d['obligation'].split('/')[-1], '|', str(d.get('detail'))[:230], '| confirmed=', d.get('confirmed_on_real_code'))" "$f"; done
+    fi
   done
 done
